@@ -61,14 +61,60 @@ Proof. exists (set_flags ex_graph false false true [true; true]). vm_compute. au
 
 (* ================================================================== kLeastAbsErrorsCycles / kMinPathErrorCycles *)
 Definition deviates_kErrCycles (i : input) := all_ignored i.
-Theorem validate_sound_kErrCycles i : validate_kErrCycles i = RaiseValueError -> in_domain_kErrCycles i = false.
-Proof. intros H. destruct (in_domain_kErrCycles i) eqn:D; [exfalso|reflexivity]. sound_script i. Qed.
-Theorem validate_complete_kErrCycles i :
-  in_domain_kErrCycles i = false -> deviates_kErrCycles i = false -> validate_kErrCycles i = RaiseValueError.
-Proof. intros D V. unfold deviates_kErrCycles in V. complete_script i. Qed.
-Theorem accepts_domain_kErrCycles i :
-  in_domain_kErrCycles i = true -> has_live i = true -> validate_kErrCycles i = Accept.
-Proof. intros D L. rewrite has_live_all_ignored in L. apply negb_true_iff in L. accept_script i. Qed.
+(* numpy only sees the out-of-range percentile when some edge carries the attribute; otherwise every element lacks it and the
+   weight check (or, with everything ignored, DESIGN #24) decides *)
+Lemma no_weight_all_missing i : some_weight i = false -> forallb (fun e => missing_w (e_w e)) (elems i) = true.
+Proof.
+  unfold some_weight. induction (elems i) as [|e l IH]; cbn; auto.
+  intros H. apply orb_false_elim in H as [H1 H2]. apply negb_false_iff in H1. rewrite H1, (IH H2). reflexivity.
+Qed.
+Lemma no_weight_bad_live i : some_weight i = false -> all_ignored i = false -> bad_live i = true.
+Proof.
+  intros S A. apply all_missing_live_bad; [apply no_weight_all_missing; exact S|].
+  rewrite has_live_all_ignored, A. reflexivity.
+Qed.
+Ltac unfold_lae := unfold validate_kLeastAbsErrorsCycles, in_domain_kLeastAbsErrorsCycles, validate_kMinPathErrorCycles,
+  in_domain_kMinPathErrorCycles, pct_bad, pct_set in *.
+
+Theorem validate_sound_kLeastAbsErrorsCycles i :
+  validate_kLeastAbsErrorsCycles i = RaiseValueError -> in_domain_kLeastAbsErrorsCycles i = false.
+Proof.
+  intros H. destruct (in_domain_kLeastAbsErrorsCycles i) eqn:D; [exfalso|reflexivity].
+  unfold_lae. destruct (trust_pct i); sound_script i.
+Qed.
+Theorem validate_complete_kLeastAbsErrorsCycles i :
+  in_domain_kLeastAbsErrorsCycles i = false -> deviates_kErrCycles i = false -> validate_kLeastAbsErrorsCycles i = RaiseValueError.
+Proof.
+  intros D V. unfold deviates_kErrCycles in V. unfold_lae.
+  destruct (trust_pct i) eqn:T; bsimp; try solve [complete_script i].
+  destruct (some_weight i) eqn:S; [complete_script i|].
+  pose proof (no_weight_bad_live i S V) as B. complete_script i.
+Qed.
+Theorem accepts_domain_kLeastAbsErrorsCycles i :
+  in_domain_kLeastAbsErrorsCycles i = true -> has_live i = true -> validate_kLeastAbsErrorsCycles i = Accept.
+Proof.
+  intros D L. rewrite has_live_all_ignored in L. apply negb_true_iff in L.
+  unfold_lae. destruct (trust_pct i); accept_script i.
+Qed.
+
+Theorem validate_sound_kMinPathErrorCycles i :
+  validate_kMinPathErrorCycles i = RaiseValueError -> in_domain_kMinPathErrorCycles i = false.
+Proof.
+  intros H. destruct (in_domain_kMinPathErrorCycles i) eqn:D; [exfalso|reflexivity].
+  unfold_lae. destruct (trust_pct i), (ign_pct i); sound_script i.
+Qed.
+Theorem validate_complete_kMinPathErrorCycles i :
+  in_domain_kMinPathErrorCycles i = false -> deviates_kErrCycles i = false -> validate_kMinPathErrorCycles i = RaiseValueError.
+Proof.
+  intros D V. unfold deviates_kErrCycles in V. unfold_lae.
+  destruct (trust_pct i), (ign_pct i); bsimp; complete_script i.
+Qed.
+Theorem accepts_domain_kMinPathErrorCycles i :
+  in_domain_kMinPathErrorCycles i = true -> has_live i = true -> validate_kMinPathErrorCycles i = Accept.
+Proof.
+  intros D L. rewrite has_live_all_ignored in L. apply negb_true_iff in L.
+  unfold_lae. destruct (trust_pct i), (ign_pct i); accept_script i.
+Qed.
 
 (* ================================================================== kPathCoverCycles *)
 Theorem validate_sound_kPathCoverCycles i :
